@@ -35,6 +35,9 @@ def run(tier):
                    dict(op='setprefix', t=b['t'], s='', k='', v='', b=False), dict(op='setsession', t=0, s=''.join(b['s']), k='', v='', b=False),
                    dict(op='get', t=0, s='', k=''.join(b['k']), v='', b=False)]
             f.write(json.dumps(seq) + '\n')
+    with open(sp, 'a') as f:
+        for q in kv.session_switch_sequences():
+            f.write(json.dumps(q) + '\n')
     # canonical cases of the known findings
     for k in core.known_for(PID):
         with open(sp, 'a') as f:
